@@ -24,7 +24,7 @@
 (* reader reads equals ReadAt(hist, k, its horizon); (C06): the latest     *)
 (* reader reads ReadAt(hist, k, visible) under every physical arrangement. *)
 (***************************************************************************)
-EXTENDS Retention, TLC
+EXTENDS Retention, TLC, SequencesExt
 
 CONSTANTS
     Keys,          \* user keys
@@ -124,9 +124,8 @@ Flush ==
 (* One compaction round out of level src (0 = all level-0 tables) into src+1, or within the
    last level.  Everything of the target level takes part (tiny key space: ranges overlap). *)
 KeyList(S, k) ==
-    LET vs == Strip(OfKey(S, k))
-        n == Cardinality(vs)
-    IN  CHOOSE s \in [1..n -> vs] : \A i, j \in 1..n : i < j => s[i].seq > s[j].seq
+    \* newest first (SetToSortSeq: enumerating [1..n -> vs] is n^n - 8 versions of one key already exceed TLC's set limit)
+    SetToSortSeq(Strip(OfKey(S, k)), LAMBDA a, b : a.seq > b.seq)
 
 Compacted(S, bottom) ==
     UNION { { [k |-> k, seq |-> v.seq, kind |-> v.kind, win |-> v.win] :
